@@ -1412,6 +1412,9 @@ impl Bitboard {
                     other_square.file == from_square.file && other_square.rank != from_square.rank
                 });
 
+        let any_other_source =
+            legal_moves_with_same_to_square_and_same_piece.iter()
+                .any(|mv| mv.get_source_square() != result.get_source_square());
 
         let piece = if !matches!(from_piece, Piece::PAWN) {
             from_piece.to_white().fen.to_string()
@@ -1426,6 +1429,7 @@ impl Bitboard {
             (true, _, true) | (false, true, false) => { from_square.file.fen.to_string() }
             (true, true, false) => { format!("{}{}", from_square.file.fen, from_square.rank.fen) }
             (true, false, false) => { from_square.rank.fen.to_string() }
+            (false, false, false) if any_other_source => { from_square.file.fen.to_string() }
             (_, _, _) => { String::new() }
         };
         let capture = if to_piece.is_some() { "x" } else { "" };
